@@ -43,7 +43,7 @@ def linear_deform(template, displacement, interp='linear', out=None):
 
         Supported values: ``'nearest'``, ``'linear'``
 
-    out : `numpy.ndarray`, optional
+    out : `numpy.ndarray` or ``template.space`` element, optional
         Array to which the function values of the deformed template
         are written. It must have the same shape as ``template`` and
         a data type compatible with ``template.dtype``.
@@ -83,8 +83,11 @@ def linear_deform(template, displacement, interp='linear', out=None):
     templ_interpolator = per_axis_interpolator(
         template, coord_vecs=template.space.grid.coord_vectors, interp=interp
     )
-    values = templ_interpolator(points.T, out=out)
-    return values.reshape(template.space.shape)
+    values = templ_interpolator(points.T).reshape(template.space.shape)
+    if out is None:
+        return values
+    out[:] = values
+    return out
 
 
 class LinDeformFixedTempl(Operator):
